@@ -640,12 +640,17 @@ static void mi_arenas_try_purge( bool force, bool visit_all )
     size_t max_purge_count = (visit_all ? max_arena : 2);
     bool all_visited = true;
     bool any_pending = false;
-    for (size_t i = 0; i < max_arena; i++) {
+    // start behind the arena where the previous (limited) visit stopped, so every arena gets its turn
+    static size_t purge_start;  // protected by the `purge_guard`
+    const size_t start = (visit_all ? 0 : purge_start % max_arena);
+    for (size_t k = 0; k < max_arena; k++) {
+      const size_t i = (start + k) % max_arena;
       mi_arena_t* arena = mi_atomic_load_ptr_acquire(mi_arena_t, &mi_arenas[i]);
       if (arena != NULL) {
         if (mi_arena_try_purge(arena, now, force)) {
           if (max_purge_count <= 1) {
             all_visited = false;
+            purge_start = i + 1;
             break;
           }
           max_purge_count--;
